@@ -480,9 +480,26 @@ func RunVectorHmm(c *core.Ctx, checkEM bool) {
 			constraints = append(constraints, generic.EqualityConstraint{{i1, j1}, {i2, j2}})
 		}
 		monoTol = 1e-6
+		if checkEM && c.Avoid["C16-F2"] {
+			// open finding C16-F2: with tied transition entries AND a start state
+			// restriction the likelihood decreases
+			startStates = nil
+		}
 	case 2:
 		cut := t.Range(1, m-1)
 		tree = generic.NewHmmNode(generic.NewHmmLeaf(0, cut), generic.NewHmmLeaf(cut, m))
+		if m == 3 {
+			// three states: also one leaf per state, flat or nested on either side
+			l0, l1, l2 := generic.NewHmmLeaf(0, 1), generic.NewHmmLeaf(1, 2), generic.NewHmmLeaf(2, 3)
+			switch t.Choose(4) {
+			case 1:
+				tree = generic.NewHmmNode(l0, l1, l2)
+			case 2:
+				tree = generic.NewHmmNode(generic.NewHmmNode(l0, l1), l2)
+			case 3:
+				tree = generic.NewHmmNode(l0, generic.NewHmmNode(l1, l2))
+			}
+		}
 	}
 	// with ChunkSize > 0 every sequence is cut into consecutive pieces of at
 	// most that many observations, which are treated as independent sequences
@@ -554,6 +571,15 @@ func RunVectorHmm(c *core.Ctx, checkEM bool) {
 		}
 		d, _ := est.GetEstimate()
 		o.params = vecOf(d.GetParameters())
+		if variant == 1 {
+			// the tied M-step is a root finder that stops at 1e-8: the LOG of a
+			// negligible probability (exp(-19), exp(-3000)) is ill-conditioned
+			// under it; initial and transition probabilities are compared as
+			// probabilities
+			for i := 0; i < m+m*m && i < len(o.params); i++ {
+				o.params[i] = math.Exp(o.params[i])
+			}
+		}
 		o.trace = like
 		r := ad.NewFloat64(0)
 		for _, x := range recs {
@@ -579,7 +605,12 @@ func RunVectorHmm(c *core.Ctx, checkEM bool) {
 	logSchedule(c, res)
 	c.Logf("sequential: %v trace %v %s", seq.params, seq.trace, seq.err)
 	c.Logf("parallel:   %v trace %v %s", par.params, par.trace, par.err)
-	compare(c, what, cfg, seq, par, 1e-8)
+	cmpTol := 1e-8
+	if variant == 1 {
+		// the tied M-step is a root finder that stops at 1e-8
+		cmpTol = 1e-6
+	}
+	compare(c, what, cfg, seq, par, cmpTol)
 	inputsUnchanged(c, what, before, snapVecs(recs))
 	if checkEM && par.err == "" {
 		checkMonotoneTol(c, what, par.trace, monoTol)
@@ -738,4 +769,40 @@ func checkBounds(c *core.Ctx, fam scalarFam, kind string, p []float64, x, gamma 
 			c.Fail("parameter-bounds", kind+"|above-configured-maximum", "%s returned lambda = %v, above the configured maximum %v; data %v", fam.name, p[0], lmax, vecOf(x))
 		}
 	}
+}
+
+/* open finding C16-F2 ------------------------------------------------------------------------- */
+
+// ProbeConstrainedHmmStartState: Baum-Welch of a constrained HMM (tr[0][1] and
+// tr[1][0] tied) with the start state restricted to state 0, fixed normal
+// emissions, uniform initial transition matrix: the likelihood reported through
+// the hook rises at the first step and falls at every following one.
+func ProbeConstrainedHmmStartState(c *core.Ctx) {
+	data := [][]float64{{-3, -3}, {-3, -3}, {-3, 0.25}, {-3}, {-3}, {-3, 1}, {-3}}
+	recs := []ad.ConstVector{}
+	for _, d := range data {
+		recs = append(recs, ad.NewDenseFloat64Vector(d))
+	}
+	es := make([]st.ScalarEstimator, 2)
+	es[0], _ = se.NewNormalEstimator(-1, 1, 0.1)
+	es[1], _ = se.NewNormalEstimator(1, 1, 0.1)
+	like := []float64{}
+	hook := generic.BaumWelchHook{Value: func(h generic.BasicHmm, i int, likelihood, epsilon float64) {
+		if i > 0 {
+			like = append(like, likelihood)
+		}
+	}}
+	cons := []generic.EqualityConstraint{{{0, 1}, {1, 0}}}
+	est, err := ve.NewConstrainedHmmEstimator(ad.NewDenseFloat64Vector([]float64{0.5, 0.5}), ad.NewDenseFloat64Matrix([]float64{0.5, 0.5, 0.5, 0.5}, 2, 2), nil, []int{0}, nil, cons, es, math.Inf(-1), 6, hook)
+	if err != nil {
+		c.Logf("constructor: %v", err)
+		return
+	}
+	est.OptimizeEmissions = false
+	if pv, site := core.Try(func() { err = est.EstimateOnData(recs, nil, tp.ThreadPool{}) }); pv != nil || err != nil {
+		c.Logf("estimation failed loudly: %v %v %s", err, pv, site)
+		return
+	}
+	c.Logf("likelihood trace: %v", like)
+	checkMonotoneTol(c, "hmm:normal-emissions|constrained", like, 1e-6)
 }
